@@ -76,6 +76,11 @@ func (c19) Gen(rng *rand.Rand, tier string, idx int) Case {
 		{"grow", itoa(int64(grow[0])), itoa(int64(grow[1]))}, {"mininc", itoa(int64(mininc))},
 		{"thr", itoa(int64(thr[0])), itoa(int64(thr[1]))}, {"timeout", c19TimeoutTok(rng, strat, timeout)},
 		{"nprod", itoa(int64(nprod))}, {"rows", itoa(int64(rows))}}
+	if rng.Intn(4) == 0 {
+		// one row of the case is a nil map
+		c.Cfg = append(c.Cfg, []string{"nilrow", itoa(int64(rng.Intn(nprod))), itoa(int64(rng.Intn(rows)))})
+		c.Stat = append(c.Stat, "nil-map-row")
+	}
 	c.Stat = append(c.Stat, "strat-"+strat, fmt.Sprintf("nprod-%d", nprod), fmt.Sprintf("cap-%d", capn))
 	if idx%40 == 39 {
 		// option plumbing: a strategy name that is not one of the three canonical spellings must be refused at Execute
@@ -658,9 +663,19 @@ func (c19) Exec(c Case) [][][]string {
 		return fail("cfg-not-in-effect")
 	}
 	r.cons.aux = r.st.VerifDataChan()
+	nilP, nilK := -1, -1
+	if v := c19cfgGet(c, "nilrow"); len(v) == 2 {
+		nilP, _ = strconv.Atoi(v[0])
+		nilK, _ = strconv.Atoi(v[1])
+	}
 	r.ssql.AddSyncSink(func(res []map[string]interface{}) {
 		r.sinkMu.Lock()
 		for _, m := range res {
+			if m["p"] == nil && m["k"] == nil && nilP >= 0 {
+				// the case's one nil-map row (cfg nilrow): the engine reads it like an empty map; its identity is known
+				r.seen = append(r.seen, [2]int{nilP, nilK})
+				continue
+			}
 			r.seen = append(r.seen, [2]int{c19asInt(m["p"]), c19asInt(m["k"])})
 		}
 		r.sinkMu.Unlock()
@@ -674,6 +689,10 @@ func (c19) Exec(c Case) [][][]string {
 			s.bind(name)
 			for k := 0; k < rows; k++ {
 				s.yield("emit.call")
+				if i == nilP && k == nilK {
+					r.ssql.Emit(nil) // a nil map is a row like any other (Emit call counted, processed or counted dropped)
+					continue
+				}
 				r.ssql.Emit(map[string]interface{}{"p": i, "k": k})
 			}
 			s.finish(name)
